@@ -527,6 +527,40 @@ def cohB (s : Schema) (d : Document) (e : Env) : Bool :=
   e.tbl.all (fun f => decide (piOf s d f.sel = namedOf e.s f.typeCond)) &&
   (typedSelSets s d).all (fun cs => decide (piOf s d cs.2 = cs.1.parent))
 
+/-! ### hypotheses of the completeness theorem `overlap_complete_acyclic` (all decidable, evaluated by the drivers)
+
+* `cohB` (above);
+* `Graph`-level: unique fragment names and no fragment cycle (`acyclicB` = the cycle rule reports nothing; by `cycles_iff`
+  that is `¬ Cyclic`);
+* `argsFaithfulB`: whenever the code's `sameArguments` (equal PRINTED values) holds for two fields of the document,
+  the arguments are structurally equal — true for parser-produced values because printing is injective on them
+  (C08 round trip);
+* `apartB`: the locations that stand for pointer identity separate fragment bodies from every other selection set
+  (a strictly nested selection set or an operation's root never has the location of a fragment body; two fragment
+  bodies with one location belong to fragments of one name). -/
+
+/-- the cycle rule reports nothing -/
+def acyclicB (d : Document) : Bool := (cycleRun (fragDefs d)).errs.isEmpty
+
+/-- every field of the document, with the parent type `piOf` assigns to its selection set -/
+def docFields (s : Schema) (d : Document) (e : Env) : List FieldOcc :=
+  (allSets d).flatMap (fun Y => directSet e (piOf s d Y) Y)
+
+def argsFaithfulB (s : Schema) (d : Document) (e : Env) : Bool :=
+  (docFields s d e).all (fun a => (docFields s d e).all (fun b =>
+    !sameArguments a.node.args b.node.args || sameArgsS a.node.args b.node.args))
+
+/-- selection sets strictly below a root -/
+def properSetsL (d : Document) : List SelectionSet := (rootSets d).flatMap (fun r => belowSels r.sels)
+
+def apartB (d : Document) (tbl : List Frag) : Bool :=
+  (properSetsL d).all (fun X => tbl.all (fun f => X.loc != f.sel.loc)) &&
+  (opSels d).all (fun X => tbl.all (fun f => X.loc != f.sel.loc)) &&
+  tbl.all (fun f => tbl.all (fun g => f.sel.loc != g.sel.loc || f.name.value == g.name.value))
+
+def compB (s : Schema) (d : Document) (e : Env) : Bool :=
+  cohB s d e && uniqueFragNames d && acyclicB d && argsFaithfulB s d e && apartB d e.tbl
+
 /-! ### deciding `PairConflict`: search of the finite state graph with a visited set -/
 
 abbrev PState := Bool × FieldOcc × FieldOcc
